@@ -306,7 +306,7 @@ func tcEvalBuilds(r *core.Run, c *tcCase) *tcResult {
 		res.chain[i] = tcBuild(filepath.Join(root, "chain"), entry, v, "", "")
 		res.flat[i] = tcBuild(filepath.Join(root, "flat"), entry, v, "", "")
 		res.builds += 2
-		if first || r.Thorough() { // file vs tsconfigRaw does not depend on the output format: one variant in the quick tier
+		if first || (r.Thorough() && i == 3) || r.Replay != "" { // file vs tsconfigRaw does not depend on the output format: one variant in the quick tier, two in the thorough tier
 			res.raw[i] = tcBuild(filepath.Join(root, "raw"), entry, v, c.flatJSON(), "")
 			res.hasRaw[i] = true
 			res.explicit[i] = tcBuild(filepath.Join(root, "chain"), entry, v, "", filepath.Join(root, "chain", "tsconfig.json"))
